@@ -435,6 +435,8 @@ class BoundsChecker:
                 self.assign(n.target, n.value, facts)
 
     def run(self) -> None:
+        from ..loader import EXECUTED
+        EXECUTED.add(self.fn.qualname)
         self.block(self.fn.node.body, Facts())
 
 
